@@ -870,6 +870,13 @@ pub fn f3_wrap() -> Vec<Pos> {
             "4k3/8/8/8/6pP/p7/8/4K3 b - h3 0 1",
             "r3k2r/8/8/7p/P7/8/8/R3K2R w KQkq h6 0 1",
             "r3k2r/8/8/7p/P7/8/8/R3K2R b KQkq a3 0 1",
+            // promotions: a pawn on the last-but-one rank of an edge file and an enemy man on the other edge
+            "4k3/p6P/8/8/8/8/8/4K3 w - - 0 1",
+            "4k3/P6p/8/8/8/8/8/4K3 w - - 0 1",
+            "4k3/8/8/8/8/8/p6P/4K3 b - - 0 1",
+            "4k3/8/8/8/8/8/P6p/4K3 b - - 0 1",
+            "n3k2n/P6P/8/8/8/8/p6p/N3K2N w - - 0 1",
+            "n3k2n/P6P/8/8/8/8/p6p/N3K2N b - - 0 1",
         ],
         "F3a",
     );
@@ -1788,6 +1795,9 @@ pub fn f3_all(rng: &mut Rng, full: bool) -> F3All {
     pos.extend(f3g(rng, full));
     pos.extend(f3h(rng, full));
     pos.extend(f3_allpinned());
+    pos.extend(f3_crosspin());
+    pos.extend(f3_manycheckers());
+    pos.extend(f3a_discover());
     pos.extend(f3i(rng, if full { 40 } else { 8 }, if full { 2_000_000 } else { 300_000 }));
     F3All {
         pos,
@@ -1811,26 +1821,27 @@ pub fn f3_allpinned() -> Vec<Pos> {
         if mask.count_ones() < 2 {
             continue;
         }
-        for v in 0..8u8 {
+        // `slide`: some of the pinned men are of a type that can still move ALONG its pin (not a stalemate then)
+        for (v, slide) in (0..8u8).map(|v| (v, false)).chain((0..8u8).map(|v| (v, true))) {
             let mut c: Cells = [0; 64];
             c[sqn("a1")] = WK;
             let mut covered_by_knight: Vec<usize> = Vec::new();
             if mask & 1 != 0 {
-                c[sqn("a2")] = if v & 1 == 0 { WN } else { WB };
+                c[sqn("a2")] = if slide { if v & 1 == 0 { WR } else { WQ } } else if v & 1 == 0 { WN } else { WB };
                 let (s, m) = a2_pins[(v as usize >> 1) & 1];
                 c[s] = m;
             } else {
                 covered_by_knight.push(sqn("a2"));
             }
             if mask & 2 != 0 {
-                c[sqn("b1")] = if v & 2 == 0 { WN } else { WB };
+                c[sqn("b1")] = if slide && v & 1 == 1 { if v & 2 == 0 { WR } else { WQ } } else if v & 2 == 0 { WN } else { WB };
                 let (s, m) = b1_pins[(v as usize >> 2) & 1];
                 c[s] = m;
             } else {
                 covered_by_knight.push(sqn("b1"));
             }
             if mask & 4 != 0 {
-                c[sqn("b2")] = if v & 4 == 0 { WN } else { WR };
+                c[sqn("b2")] = if slide && v & 2 == 2 { if v & 4 == 0 { WB } else { WQ } } else if v & 4 == 0 { WN } else { WR };
                 let (s, m) = b2_pins[(v as usize) & 1];
                 c[s] = m;
             } else {
@@ -1868,6 +1879,119 @@ pub fn f3_allpinned() -> Vec<Pos> {
             }
         }
     }
+    out
+}
+
+// ------------------------------------------------------------------ cross pins, many checkers, discovered en passant
+
+/// Two own men pinned by two different enemy sliders, where one pinned man can CAPTURE THE OTHER MAN'S PINNER (leaving
+/// its own pin line): the capture is pseudo-legal and illegal. Both colours.
+pub fn f3_crosspin() -> Vec<Pos> {
+    let mut out = Vec::new();
+    let kings = [sqn("e1"), sqn("d4"), sqn("a1"), sqn("h5")];
+    for &k in &kings {
+        for (i, (dr1, dc1)) in DIRS8.iter().enumerate() {
+            for (j, (dr2, dc2)) in DIRS8.iter().enumerate() {
+                if i == j {
+                    continue;
+                }
+                let r1 = ray(k, *dr1, *dc1);
+                let r2 = ray(k, *dr2, *dc2);
+                if r1.len() < 2 || r2.len() < 2 {
+                    continue;
+                }
+                for d1 in 0..r1.len().min(3) - 0 {
+                    if d1 + 1 >= r1.len() {
+                        break;
+                    }
+                    for d2 in 0..r2.len().min(3) {
+                        if d2 + 1 >= r2.len() {
+                            break;
+                        }
+                        let diag1 = *dr1 != 0 && *dc1 != 0;
+                        let diag2 = *dr2 != 0 && *dc2 != 0;
+                        let mut c: Cells = [0; 64];
+                        c[k] = WK;
+                        c[r1[d1]] = WQ;
+                        c[*r1.last().unwrap()] = if diag1 { BB } else { BR };
+                        c[r2[d2]] = WN;
+                        let pin2 = r2[d2 + 1];
+                        c[pin2] = if diag2 { BB } else { BR };
+                        if c.iter().filter(|&&x| x != 0).count() != 5 {
+                            continue;
+                        }
+                        for bk in ["h8", "a8", "h1", "a5", "c7"] {
+                            let s = sqn(bk);
+                            if c[s] != 0 {
+                                continue;
+                            }
+                            let mut cc = c;
+                            cc[s] = BK;
+                            let raw = cells_to_raw(&cc, Color::White, 0, None, 0, 1);
+                            if let Some(p) = pos_of(raw, "F3-crosspin") {
+                                // keep it only if the queen can geometrically capture the second pinner
+                                let hits = semilegal::gen_all(&p.board)
+                                    .iter()
+                                    .any(|m| m.src().index() == r1[d1] && m.dst().index() == pin2);
+                                if hits && !p.board.is_check() && out.len() < 240 {
+                                    if let Some(q) = pos_of(mirror_raw_v(&raw), "F3-crosspin") {
+                                        out.push(q);
+                                    }
+                                    out.push(p);
+                                }
+                                break;
+                            }
+                        }
+                    }
+                }
+            }
+        }
+    }
+    out
+}
+
+/// The side to move in check from THREE OR MORE men at once (the gate only forbids an attack on the king of the side
+/// that is NOT to move, so these are valid positions although no game reaches them), both colours.
+pub fn f3_manycheckers() -> Vec<Pos> {
+    let mut out = Vec::new();
+    add_fens(
+        &mut out,
+        &[
+            "k3q3/8/8/q7/7q/8/8/4K3 w - - 0 1",
+            "k3q3/8/8/q7/7q/3n1n2/8/r3K2r w - - 0 1",
+            "k3r3/8/8/b7/7b/3n4/8/4K3 w - - 0 1",
+            "4r2k/8/8/8/1b5q/5n2/3p4/r3K2r w - - 0 1",
+            "4K3/8/3N1N2/7Q/Q7/8/8/k3R3 b - - 0 1",
+            "R3k2R/3P4/5N2/1B5Q/8/8/8/4K3 b - - 0 1",
+            "4k3/8/8/8/8/2b1b3/3K4/2q1q3 w - - 0 1",
+        ],
+        "F3-manycheckers",
+    );
+    let more: Vec<Pos> = out.iter().filter_map(|p| pos_of(mirror_raw_v(&p.sent), "F3-manycheckers")).collect();
+    out.extend(more);
+    out
+}
+
+/// En-passant captures that give a DISCOVERED check to the enemy king: an own slider behind the captured pawn's square
+/// (the line opens when the victim disappears) or behind the capturing pawn's source square. Both colours.
+pub fn f3a_discover() -> Vec<Pos> {
+    let mut out = Vec::new();
+    add_fens(
+        &mut out,
+        &[
+            "6k1/8/8/3pP3/8/1B6/8/K7 w - d6 0 1",
+            "8/8/8/R2pP2k/8/8/8/K7 w - d6 0 1",
+            "k7/7b/8/8/3pP3/8/8/1K6 b - e3 0 1",
+            "3k4/8/8/3pP3/8/8/8/K2R4 w - d6 0 1",
+            "4k3/8/8/3pP3/8/8/8/K3R3 w - d6 0 1",
+            "7k/8/8/4Pp2/3B4/8/8/K7 w - f6 0 1",
+            "K7/8/8/8/3pP3/8/8/r3k2 b - e3 0 1",
+            "2k5/8/8/2pP4/8/8/8/K1Q5 w - c6 0 1",
+        ],
+        "F3a",
+    );
+    let more: Vec<Pos> = out.iter().filter_map(|p| pos_of(mirror_raw_v(&p.sent), "F3a")).collect();
+    out.extend(more);
     out
 }
 
